@@ -330,8 +330,17 @@ def gen_case_c35(rng, idx, thorough, force=None):
     msgs = []
     for mi in range(nmsg):
         nq = 1 if rng.random() < 0.9 else rng.randint(2, 4)
+        # question section alone above the client's limit (seeded defect C35-2 was missed without it): several questions whose
+        # long names share no suffix, on transports with a small limit
+        bigq = klass == "small" and transport in ("udp", "edns") and limit <= 1300 and rng.random() < 0.25
+        if bigq:
+            nq = rng.randint(3, 6)
         qs = []
         for qi in range(nq):
+            if bigq:
+                lab = [bytes(rng.choice(b"abcdefghijklmnopqrstuvwxyz0123456789") for _ in range(rng.randint(50, 62))) for _ in range(4)]
+                qs.append((lab, rng.choice([1, 28, 16]), 1))
+                continue
             lab = names.labels() if rng.random() < 0.7 else names.fresh(tag=b"m%dq%d" % (mi, qi))
             qs.append((lab, rng.choice([1, 28, 12, 5, 16, 255, 2, 6, rng.randrange(65536)]), rng.choice([1, 1, 1, 3, 255, rng.randrange(65536)])))
         flags = (0x0100 if rng.random() < 0.7 else 0) | (0x0010 if rng.random() < 0.1 else 0) | (0x0020 if rng.random() < 0.05 else 0)
